@@ -6,6 +6,7 @@ PROP = {
         "impl Ctxt for {&C, Option<C>, Box<C>, Arc<C>, dyn ErasedCtxt, dyn ErasedCtxt + Send + Sync}: every method forwards to the same method of the wrapped context (c03c04_q_wrapper_*)",
         "emit::span::{SpanCtxt::{current, new_child, new_root, push, new}, SpanGuard::{new, push_ctxt, start, drop}, TraceId::{random, from_value}, SpanId::{random, from_value}, completion::Default::complete}",
         "emit::Frame::{push, disabled, call}, emit_core::emit",
+        "emit::frame::EnterGuard::drop while thread::panicking() (c03c04_q_exit_while_panicking: a span's frame is left by a panic; ambient ids revert like on any other exit)",
     ],
     "bounds": "ONE inductive step: from an arbitrary ambient state (no ids, or ambient trace/span ids with or without a parent id; their values fixed in the quick tier, symbolic in the thorough tier and in the new_child kernel) one span is created with a "
               "symbolic filter verdict, run inside its frame (thorough: with an event inside) and completed through the default completion; "
